@@ -496,6 +496,21 @@ def r6(prog, run):
                 t = f.fmt(c)
                 if '::size()' in t and (('<=' in t and p is True) or ('>' in t and p is False)):
                     ok, why = True, 'dominated by a size bound'
+            # (c) the padded value is a local that starts as the key and is replaced by a digest under "size > B"
+            if kn['k'] == 'var' and kn.get('vk') == 'local':
+                ds = [d for d in f.all_defs(kn.get('decl')) if d is not None]
+                digest_defs = [d for d in ds if 'QCryptographicHash' in f.fmt(d)]
+                guarded = False
+                for j, an in list(f.all_nodes('assign')) + [(j, an) for j, an in f.calls() if an.get('op') == '=' and len(an.get('opargs', [])) == 2]:
+                    lhs = f.nodes[f.skip(an['l'] if an['k'] == 'assign' else an['opargs'][0])]
+                    rhs = an['r'] if an['k'] == 'assign' else an['opargs'][1]
+                    if lhs.get('decl') == kn.get('decl') and 'QCryptographicHash' in f.fmt(rhs):
+                        for c, p in f.atomic_assertions_at(j):
+                            t = f.fmt(c)
+                            if '::size()' in t and ((' > ' in t and p is True) or (' <= ' in t and p is False)):
+                                guarded = True
+                if digest_defs and guarded and len(ds) == len(digest_defs) + 1:
+                    ok, why = True, 'long keys are replaced by their hash (assigned under the size test)'
             # (b) the padded value is "size > B ? hash(key) : key"
             if kn['k'] == 'cond':
                 ct = f.fmt(kn['c'])
@@ -759,12 +774,24 @@ def r11(prog, run):
         if n['k'] == 'call' and (g.sym(n) or {}).get('record') == 'QCryptographicHash' and n.get('obj') is not None:
             nm = (g.sym(n) or {}).get('name')
             if nm in ('addData', 'result', 'reset', 'resultView'):
-                return {'addData': 'add', 'result': 'result', 'resultView': 'result', 'reset': 'reset'}[nm]
+                o = g.nodes[g.skip(n['obj'])]
+                # which object: a local of this function, or "the object the caller handed in" (a parameter of a helper stands for any of the caller's objects)
+                who = 'L%s' % o.get('decl') if o.get('k') == 'var' and o.get('vk') == 'local' else '*'
+                return {'addData': 'add', 'result': 'result', 'resultView': 'result', 'reset': 'reset'}[nm] + '@' + who
         return None
-    seqs = cfgx.effect_sequences(prog, top, event_of)
+    seqs0 = cfgx.effect_sequences(prog, top, event_of)
+
+    def project(q):
+        """one sequence per hash object: events on '*' (through a helper parameter) count for every object"""
+        objs = {e.split('@')[1] for e in q if '@' in e and not e.endswith('@*')} or {'*'}
+        out = []
+        for o in objs:
+            out.append(tuple(e.split('@')[0] if '@' in e else e for e in q if '@' not in e or e.endswith('@' + o) or e.endswith('@*')))
+        return out
+    seqs = {p_ for q in seqs0 for p_ in project(q)}
 
     def ends_taken(q, taken=False):
-        for e in q:
+        for e in (x.split('@')[0] for x in q):
             if e == 'result':
                 taken = True
             elif e == 'reset':
